@@ -44,6 +44,21 @@ def gen_one(r, i, tier):
         b = push(("new", spec))
         ops.extend([("fill", b, [v, 0.5, 0.0, "a", False], 1.0) for _ in range(r.randint(3, 6))])
         a = push(("add", a, b))
+    elif i % 15 == 3:
+        # a Bag of vectors (2, 3 or 10 components) that really holds NaN / infinite components, alone or
+        # below another container: its keys must come back from the document as they were
+        nvec = [2, 3, 10][(i // 15) % 3]
+        bag = {"k": "Bag", "range": "N%d" % nvec, "q": {"name": None, "id": 0, "e": ["vec"] + [r.randint(0, 2) for _ in range(nvec)]}}
+        wrap = (i // 45) % 3
+        spec = bag if wrap == 0 else \
+            {"k": "Categorize", "q": {"name": None, "id": 0, "e": ["f", 3]}, "value": bag} if wrap == 1 else \
+            {"k": "Select", "q": {"name": None, "id": 0, "e": ["<", ["f", 1], ["c", 4.0]]}, "cut": bag}
+        ops[:] = []
+        a = push(("new", spec))
+        vals = [float("nan"), float("inf"), -float("inf"), 1.0, 0.5, -2.25]
+        rows_ = [[r.choice(vals), r.choice(vals[3:] + vals[:1]), r.choice(vals), r.choice(["a", "b"]), False] for _ in range(4)]
+        for d_ in rows_ + rows_[:2]:
+            ops.append(("fill", a, list(d_), r.choice([1.0, 2.0, 0.5])))
     elif c < 0.2:
         b = push(("new", spec)); ops.extend(base.fill_ops(b, s[:2])); a = push(("add", a, b))
     elif c < 0.35:
